@@ -15,6 +15,7 @@ func init() {
 			"registration and de-registration use the same key; with no reader registered ReleasePendingPages releases everything (tabulated: release(MaxUint64-1) and the trailing releaseRange are unconditional); order-dependent lookups in the reader list are preceded by a sort; the writer publishes the free/pending counts before releasing the writer lock. " +
 			"NOT decided: the bound 'at most the pages of that very commit are withheld' (needs the value semantics of release/releaseRange), behaviour across reopen.",
 		Run: func(c *Ctx) {
+			ruleOneRegistrationRemoved(c, "C10.R10")
 			c10R1(c, "C10.R1")
 			c10R2(c, "C10.R2")
 			c.rule("C10.R3", "reader-key-agreement", 2, func() { ruleReaderKeys(c, "C10.R3") })
